@@ -11,6 +11,19 @@ SCENARIOS = [
                                           {"op": "set", "name": "a.lua", "text": A2}, {"op": "reindex"}]},
     {"id": "remove_then_reindex", "steps": [{"op": "set", "name": "a.lua", "text": A1}, {"op": "set", "name": "b.lua", "text": B},
                                             {"op": "remove", "name": "a.lua"}, {"op": "reindex"}]},
+    {"id": "stale_analysis_error", "fresh": "batch",
+     "steps": [{"op": "set", "name": "a.lua", "text": "---@type Widget\nlocal w\n\n---@param x Widget\nlocal function use(x) end\n\nuse(w)\n"},
+               {"op": "set", "name": "b.lua", "text": "---@class Widget\n---@field id integer\n"},
+               {"op": "set", "name": "scratch.lua", "text": "---@class Scratch\nScratchGlobal = 1\n"}, {"op": "remove", "name": "scratch.lua"}, {"op": "reindex"}]},
+    {"id": "split_class_generic_header", "fresh": "batch",
+     "steps": [{"op": "set", "name": "box_a.lua", "text": "---@class (partial) Box<T>\n---@field value T\n"},
+               {"op": "set", "name": "box_b.lua", "text": "---@class (partial) Box\n---@field label string\n"},
+               {"op": "set", "name": "user.lua", "text": "---@type Box\nlocal b\n\n---@param x Box\n---@return string\nlocal function describe(x)\n    return x.label\nend\n\nBoxLabel = describe(b)\n"},
+               {"op": "set", "name": "box_a.lua", "text": "---@class (partial) Box\n---@field value integer\n"}, {"op": "reindex"}]},
+    {"id": "remote_document", "fresh": "batch",
+     "steps": [{"op": "set_remote", "uri": "emmylua-remote://host/pkg/remote_thing.lua", "text": "---@class RemoteThing\n---@field n integer\nRemoteGlobal = 1\n"},
+               {"op": "set", "name": "main.lua", "text": "---@type RemoteThing\nlocal t\nprint(t.n, RemoteGlobal)\n"},
+               {"op": "set", "name": "old.lua", "text": "---@class OldThing\nOldGlobal = 1\n"}, {"op": "remove", "name": "old.lua"}, {"op": "reindex"}]},
     {"id": "reindex_twice", "steps": [{"op": "set", "name": "a.lua", "text": A1}, {"op": "set", "name": "b.lua", "text": B}, {"op": "reindex"}, {"op": "reindex"}]},
 ]
 
